@@ -628,7 +628,7 @@ fn dims(thorough: bool) -> Dims {
       t: vec!["none", "substring", "replace", "convert", "chain2", "chain3", "chain2r", "chain3r", "fromc", "indep"],
       w: vec!["none", "one", "two", "nested"],
       fc: vec!["captured", "transformed", "both"],
-      ff: vec!["string", "object", "object-expand", "object-expand-matches"],
+      ff: vec!["string", "object", "object-expand", "object-expand-matches", "object-expand-both"],
     }
   } else {
     Dims {
@@ -638,7 +638,7 @@ fn dims(thorough: bool) -> Dims {
       t: vec!["none", "chain2", "chain3", "chain2r", "chain3r", "fromc"],
       w: vec!["none", "one", "two", "nested"],
       fc: vec!["captured", "both"],
-      ff: vec!["string", "object", "object-expand-matches"],
+      ff: vec!["string", "object", "object-expand-matches", "object-expand-both"],
     }
   }
 }
@@ -839,6 +839,7 @@ fn build_base(r: &str, u: &str, k: &str, t: &str, w: &str, fc: &str, ff: &str) -
     "string" => json!(template),
     "object" => json!({"template": template}),
     "object-expand" => json!({"template": template, "expandEnd": {"regex": ","}}),
+    "object-expand-both" => json!({"template": template, "expandStart": {"matches": first_util?}, "expandEnd": {"matches": first_util?}}),
     _ => json!({"template": template, "expandEnd": {"matches": first_util?}}),
   };
   let mut doc = json!({
